@@ -435,7 +435,7 @@ func keepsFrame(op compiler.Opcode) bool {
 @*/
 
 /*@ func (self *Core) runInstruction
-    serves C01, C02, C04, C09, C11, C16
+    serves C01, C02, C04, C09, C11, C16, C12
     wrap int64
     ghostset sincePoll = ghost(sincePoll) + 1
     split instruction.Opcode() in 0..51
@@ -493,6 +493,7 @@ func keepsFrame(op compiler.Opcode) bool {
     ensures @unwrap-none instruction.Opcode() == compiler.Opcode_Member_Unwrap ==> (result != nil <==> old(self.peek(0)).(value.ValueOption).Inner == nil)
     ensures @some instruction.Opcode() == compiler.Opcode_Some ==> self.peek(0).Kind() == value.OptionValueKind && self.peek(0).(value.ValueOption).Inner != nil && *self.peek(0).(value.ValueOption).Inner == old(self.peek(0))
     ensures @some-unshared instruction.Opcode() == compiler.Opcode_Some ==> fresh(self.peek(0).(value.ValueOption).Inner) && fresh(self.Stack[len(self.Stack)-1])
+    ensures @a-failed-cast-can-be-caught instruction.Opcode() == compiler.Opcode_Cast && result != nil ==> (*result).Kind() == value.Vm_NormalExceptionInterruptKind
     ensures @cast-conforms result == nil && instruction.Opcode() == compiler.Opcode_Cast ==> value.VConforms(self.peek(0), instruction.(compiler.CastInstruction).Type)
     ensures @iterator instruction.Opcode() == compiler.Opcode_IntoIter ==> self.peek(0).Kind() == value.IteratorValueKind
     ensures @clone-unshared result == nil && instruction.Opcode() == compiler.Opcode_Clone ==> len(self.Stack) > 0 && fresh(self.Stack[len(self.Stack)-1]) && self.peek(0).Kind() == old(self.peek(0).Kind())
@@ -593,7 +594,8 @@ func terminationOf(i *value.VmInterrupt) bool {
 @*/
 
 /*@ func (self *VM) SpawnSync
-    serves C16, C10, C15
+    assert @host-arguments-are-checked-without-conversion after _, interrupt := value.DeepCast(arg, param.Type, errors.Span{}, :: value.VIsScalarType(param.Type) && !value.VConforms(arg, param.Type) ==> interrupt != nil
+    serves C16, C10, C15, C12
     ensures @core-started ghost(goroutines) == old(ghost(goroutines)) + 1
     ensures @joined len(self.Cores.Cores) == 0
     assumed-ensures @exception-has-interrupt result.Exception != nil ==> result.Exception.Interrupt != nil
@@ -608,7 +610,8 @@ func terminationOf(i *value.VmInterrupt) bool {
 @*/
 
 /*@ func (self *VM) SpawnAsync
-    serves C16, C10
+    assert @host-arguments-are-checked-without-conversion after _, interrupt := value.DeepCast(arg, param.Type, errors.Span{}, :: value.VIsScalarType(param.Type) && !value.VConforms(arg, param.Type) ==> interrupt != nil
+    serves C16, C10, C12
     ensures @core-started ghost(goroutines) == old(ghost(goroutines)) + 1
     assume-safety
     assumepre DeepCast
@@ -621,7 +624,7 @@ func terminationOf(i *value.VmInterrupt) bool {
 @*/
 
 /*@ func (self *VM) HandleTermination
-    serves C16, C02
+    serves C16, C02, C12
     assumepre DeepCast
     assume-unreachable Foreign function invocation
     requires invocation.FunctionSignature.ReturnType != nil
